@@ -119,6 +119,7 @@ func (vc *VC) evalCall(st *State, call *ast.CallExpr) Val {
 		return vc.externalCall(st, fn, recv, args, call)
 	}
 	if fi.Spec != nil {
+		vc.callLockCheck(st, fi, recv, call.Pos())
 		return vc.callModular(st, fi, fi.Spec, recv, args, call.Pos(), fi.Key)
 	}
 	return vc.inlineCall(st, fi, recv, args, call)
@@ -482,6 +483,33 @@ func (vc *VC) evalDSL(st *State, fi *FuncInfo, fn *types.Func, call *ast.CallExp
 		a := vc.evalScalar(st, call.Args[1])
 		b := vc.evalScalar(st, call.Args[2])
 		return sc(ite(c, a.T, b.T), a.S)
+	case name == "wsum" || name == "card":
+		l := vc.evalScalar(st, call.Args[0])
+		vc.finsumAxioms()
+		mem := sel(vc.heapGet(st, "gh.po_in", ArrSort(SRef, ArrSort(SRef, SBool))), l.T)
+		if name == "card" {
+			return sc(sx("fs.card", mem), BV(64))
+		}
+		w := vc.heapGet(st, "Entry.policyWeight", ArrSort(SRef, BV(64)))
+		return sc(sx("fs.sum", mem, w), BV(64))
+	case name == "same":
+		return sc(vc.valEq(vc.eval(st, call.Args[0]), vc.eval(st, call.Args[1])), SBool)
+	case name == "has":
+		m := vc.evalScalar(st, call.Args[0])
+		k := vc.evalScalar(st, call.Args[1])
+		mt := vc.typeOf(call.Args[0]).Underlying().(*types.Map)
+		dom, _, _, ks, _ := vc.mapHeaps(mt)
+		hd := vc.heapGet(st, dom, ArrSort(SRef, ArrSort(ks, SBool)))
+		return sc(sel(sel(hd, m.T), k.T), SBool)
+	case name == "heldPolicy":
+		return sc(vc.anyHeld(st, "Store.policyMu", false), SBool)
+	case name == "heldShard":
+		return sc(vc.anyHeld(st, "RBMutex", false), SBool)
+	case name == "heldShardR":
+		return sc(vc.anyHeld(st, "RBMutex", true), SBool)
+	case name == "owned":
+		x := vc.evalScalar(st, call.Args[0])
+		return sc(sel(vc.heapGet(st, "gh.owned", ArrSort(SRef, SBool)), x.T), SBool)
 	case name == "held" || name == "heldR":
 		return sc(vc.lockHeld(st, call.Args[0], name == "heldR"), SBool)
 	case name == "fresh":
@@ -500,12 +528,12 @@ func (vc *VC) evalDSL(st *State, fi *FuncInfo, fn *types.Func, call *ast.CallExp
 		}
 		al := vc.heapGet(vc.oldState, "alloc", ArrSort(SRef, SBool))
 		return sc(and(not(eq(rt, "nil")), not(sel(al, rt))), SBool)
-	case strings.HasPrefix(name, "gh_"):
+	case hasPfx(name, "gh_"):
 		return vc.ghostRead(st, fn, call)
-	case strings.HasPrefix(name, "op_"):
+	case hasPfx(name, "op_"):
 		args := vc.evalArgs(st, call)
 		return vc.evalOpaque(st, fi, args, call)
-	case strings.HasPrefix(name, "sp_") || strings.HasPrefix(name, "uf_") || strings.HasPrefix(name, "atominv_"):
+	case hasPfx(name, "sp_") || strings.HasPrefix(name, "uf_") || strings.HasPrefix(name, "atominv_") || strings.HasPrefix(name, "moninv_"):
 		args := vc.evalArgs(st, call)
 		return vc.evalPure(st, fi, args, call)
 	case name == "rint":
@@ -634,7 +662,7 @@ func (vc *VC) ghostHeap(fn *types.Func) (name string, sorts []Sort, res Sort, hs
 	for i := len(sorts) - 1; i >= 0; i-- {
 		hs = ArrSort(sorts[i], hs)
 	}
-	return "gh." + strings.TrimPrefix(fn.Name(), "gh_"), sorts, res, hs
+	return "gh." + lowerFirst(fn.Name())[3:], sorts, res, hs
 }
 
 func (vc *VC) ghostRead(st *State, fn *types.Func, call *ast.CallExpr) Val {
@@ -755,7 +783,19 @@ func (vc *VC) callModular(st *State, fi *FuncInfo, si *SpecInfo, recv Val, args 
 	pre := st.clone()
 	// frame: havoc what the callee may modify
 	mods := vc.modsOf(fi, si, recv, args)
+	effTargets := map[string]bool{}
+	if len(si.Effects) > 0 {
+		for _, g := range vc.effectTargets(si) {
+			effTargets[g] = true
+		}
+	}
 	for _, m := range mods {
+		if isLockHeap(m) {
+			continue // callee returns with the lock state it was entered with (lock.balanced)
+		}
+		if effTargets[m] {
+			continue // updated below by executing the contract's ghost effects
+		}
 		vc.havocHeap(st, m)
 	}
 	if vc.written["alloc"] {
@@ -776,6 +816,10 @@ func (vc *VC) callModular(st *State, fi *FuncInfo, si *SpecInfo, recv Val, args 
 		}
 	}
 	b = vc.bindSpec(si, recv, args, results)
+	if len(si.Effects) > 0 {
+		// the callee's ghost effects, applied to the caller's ghost state (old() = state before the call)
+		vc.runEffects(st, si, pre)
+	}
 	for _, c := range si.Clauses {
 		if c.Kind == "ensures" || c.Kind == "assumes" {
 			t := vc.evalClause(st, si, c.Expr, pre)
@@ -848,7 +892,7 @@ func (vc *VC) declaredMods(si *SpecInfo, recv Val, args []Val) []string {
 			vc.info, vc.specMode = si.Pkg.TypesInfo, true
 			nObl := len(vc.obls)
 			if call, ok := a.(*ast.CallExpr); ok {
-				if fn, _ := vc.calleeFunc(call); fn != nil && strings.HasPrefix(fn.Name(), "gh_") {
+				if fn, _ := vc.calleeFunc(call); fn != nil && hasPfx(fn.Name(), "gh_") {
 					n, _, _, _ := vc.ghostHeap(fn)
 					set[n] = true
 					vc.info, vc.specMode = saveInfo, saveMode
@@ -1159,4 +1203,34 @@ func extKey(fn *types.Func) string {
 		key += r + "."
 	}
 	return key + fn.Name()
+}
+
+// finsumAxioms: AX-FINSUM (DESIGN.md 2.6): the only axioms in the system. Sums and cardinalities of
+// finite member sets are uninterpreted; these schemata relate them across point updates. Arithmetic is
+// modulo 2^64 (A-MEM: fewer than 2^63 members).
+func (vc *VC) finsumAxioms() {
+	if vc.declared["ax.finsum"] {
+		return
+	}
+	vc.declared["ax.finsum"] = true
+	S, W := "(Array Ref Bool)", "(Array Ref (_ BitVec 64))"
+	z := bvLit(0, 64)
+	one := bvLit(1, 64)
+	vc.decls = append(vc.decls,
+		fmt.Sprintf("(declare-fun fs.sum (%s %s) (_ BitVec 64))", S, W),
+		fmt.Sprintf("(declare-fun fs.card (%s) (_ BitVec 64))", S),
+		// insertion / removal of one member
+		fmt.Sprintf("(assert (forall ((s %s) (w %s) (e Ref)) (! (= (fs.sum (store s e true) w) (ite (select s e) (fs.sum s w) (bvadd (fs.sum s w) (select w e)))) :pattern ((fs.sum (store s e true) w)))))", S, W),
+		fmt.Sprintf("(assert (forall ((s %s) (w %s) (e Ref)) (! (= (fs.sum (store s e false) w) (ite (select s e) (bvsub (fs.sum s w) (select w e)) (fs.sum s w))) :pattern ((fs.sum (store s e false) w)))))", S, W),
+		// point update of a weight
+		fmt.Sprintf("(assert (forall ((s %s) (w %s) (e Ref) (v (_ BitVec 64))) (! (= (fs.sum s (store w e v)) (ite (select s e) (bvadd (bvsub (fs.sum s w) (select w e)) v) (fs.sum s w))) :pattern ((fs.sum s (store w e v))))))", S, W),
+		fmt.Sprintf("(assert (forall ((s %s) (e Ref)) (! (= (fs.card (store s e true)) (ite (select s e) (fs.card s) (bvadd (fs.card s) %s))) :pattern ((fs.card (store s e true))))))", S, one),
+		fmt.Sprintf("(assert (forall ((s %s) (e Ref)) (! (= (fs.card (store s e false)) (ite (select s e) (bvsub (fs.card s) %s) (fs.card s))) :pattern ((fs.card (store s e false))))))", S, one),
+		// emptiness
+		fmt.Sprintf("(assert (forall ((s %s) (e Ref)) (! (=> (select s e) (bvsgt (fs.card s) %s)) :pattern ((select s e) (fs.card s)))))", S, z),
+		fmt.Sprintf("(assert (forall ((s %s)) (! (bvsge (fs.card s) %s) :pattern ((fs.card s)))))", S, z),
+		fmt.Sprintf("(assert (forall ((s %s) (w %s)) (! (=> (= (fs.card s) %s) (= (fs.sum s w) %s)) :pattern ((fs.sum s w)))))", S, W, z, z),
+		fmt.Sprintf("(assert (forall ((s %s)) (! (=> (not (= (fs.card s) %s)) (select s (fs.wit s))) :pattern ((fs.card s)))))", S, z),
+	)
+	vc.decls = append([]string{fmt.Sprintf("(declare-fun fs.wit (%s) Ref)", S)}, vc.decls...)
 }
